@@ -94,7 +94,7 @@ def main():
     s = [x for x in s if (x[0], x[1], x[5]) not in done]
     random.Random(seed).shuffle(s)
     # stratify: at most n/len(OPS)*3 per operator
-    cap = max(2, n * 3 // len(OPS)); cnt = {}; pick = []
+    cap = max(2, int(os.environ.get("SWEEP_CAP", n * 3 // len(OPS)))); cnt = {}; pick = []
     for x in s:
         if cnt.get(x[1], 0) >= cap: continue
         cnt[x[1]] = cnt.get(x[1], 0) + 1; pick.append(x)
